@@ -22,7 +22,7 @@ CHECKS = {
     "C04": dict(tech="TLC model checking of EveryFieldWeighted/EveryFieldAbsorbed on the verifier model (MC_Tamper) + replay of every (shape, field, alteration) on the real code + TLC trace validation on toy31723 (IdealIntegrity over the code's verdicts; IntegrityOrder: every proof element absorbed before each later challenge, the fork's combiner r included) + exhaustive single-bit flips",
                 text="Every field of the proof is shown to carry a non-zero weight and to be absorbed before the next challenge in the model; every generated alteration of honest one- and two-phase proofs and every single-bit flip of their encodings must be rejected at decoding or verification (or decode to the identical object) on all curves.",
                 note="n <= 5 (9); 2 (9) encodings per curve for the bit sweep; toy verdicts exact", ref="5 C04"),
-    "C07": dict(tech="TLC model checking of BatchIff/BatchCorrelated over F_7 (MC_Batch, with a failing shared-weight spec mutant) and of batch_verify over the full verifier algebra (MC_BatchSys: members are complete runs of System; BatchSysIff, BatchSysFirst, PairOpposite) + replay of every batch pattern and order on the real batch_verify + TLC trace validation of the batch verdict from recorded weights on toy curves",
+    "C07": dict(tech="TLC model checking of BatchIff/BatchCorrelated over F_7 (MC_Batch, with failing shared-weight and affine-weight spec mutants; +d/-d pair and +d/-2d/+d triple) and of batch_verify over the full verifier algebra (MC_BatchSys: members are complete runs of System; BatchSysIff, BatchSysFirst, PairOpposite) + replay of every batch pattern and order on the real batch_verify + TLC trace validation of the batch verdict from recorded weights on toy curves",
                 text="Every pattern of valid/tampered/bad-witness/+d/-d members up to the bound, in every order, and larger batches with one invalid member per position and an embedded +-d pair, run through the real batch_verify: the verdict must equal the conjunction of individual verdicts on the 256-bit curves and the specification's weighted-residual verdict on toy curves.",
                 note="patterns <= 3 (4) members, all orders for <= 3; batches of 6 (12) and the empty batch; weights recovered from the seeded caller RNG; a batch accepted by coincidence on a toy group must repeat under two other weight seeds to count", ref="5 C07"),
     "C08": dict(tech="TLC enumeration of structurally arbitrary proofs (MC_Hostile: TotalVerifier, ShapeGuardExact) + replay of every grid point through from_bytes/verify under catch_unwind + TLC trace validation of the exact verdict on toy31723 + seeded byte mutations with an allocation meter",
